@@ -85,7 +85,7 @@ func runC14(c *Ctx) {
 	sends := reachesMethod(c, pkg, map[string]bool{"NewStream": true})
 	// writes on an already created upstream request: upstreamRequest.appendHeaders/appendData/appendTrailers
 	for _, f := range c.PkgFuncs(pkg) {
-		forEachInstr(f, true, func(_ *ssa.Function, in ssa.Instruction) {
+		forEachInstr(f, false, func(_ *ssa.Function, in ssa.Instruction) {
 			if ci, ok := in.(ssa.CallInstruction); ok {
 				if callee := ci.Common().StaticCallee(); callee != nil && strings.Contains(callee.String(), "upstreamRequest).append") {
 					sends[f] = true
